@@ -157,6 +157,7 @@ struct Ctx<'a> {
     spicy_names: bool,
     /// position-less plans: a scenario may hold the same step (keyword, text, position 0:0) twice
     repeat_steps: bool,
+    dup_scenarios: bool,
 }
 
 const SPICE: &[&str] = &["", "", "", " \"q\"", " <b>&amp;", " a\\b", " émoji ✓", " it's", " 100%"];
@@ -197,7 +198,9 @@ fn gen_scenario(c: &mut Ctx<'_>, id: &str, max_steps: usize, serial: bool, retry
         (0..k).map(|j| format!("e{j}")).collect()
     });
     let spice = if c.spicy_names && !outline { *c.r.pick(SPICE) } else { "" };
-    ScenarioSpec { name: format!("{id}{spice}"), tags, steps, examples }
+    // same-named scenarios (as the rows of an outline without a placeholder in its name are)
+    let display = (c.dup_scenarios && !outline).then(|| "Sdup scenario".to_owned());
+    ScenarioSpec { name: format!("{id}{spice}"), tags, steps, examples, display }
 }
 
 fn gen_retry_tag(r: &mut Rng, delay: bool, max_retries: usize) -> String {
@@ -245,7 +248,7 @@ pub fn gen_plan(seed: u64, prof: &Profile) -> Plan {
     let dup_names = r.chance(prof.dup_names_pm, 1000);
     // features as a custom parser / typed builders produce them: all positions 0:0
     let positionless = r.chance(prof.positionless_pm, 1000);
-    let mut c = Ctx { r: &mut r, p: prof, undefined, doc_strings: prof.spicy, spicy_names: prof.spicy, repeat_steps: positionless && prof.repeat_steps };
+    let mut c = Ctx { r: &mut r, p: prof, undefined, doc_strings: prof.spicy, spicy_names: prof.spicy, repeat_steps: positionless && prof.repeat_steps, dup_scenarios: dup_names && !positionless };
     let _ = c.p;
     for fi in 0..n_feat {
         let fid = ident("F", fi);
